@@ -14,6 +14,20 @@ def matching(P, target):
     return [bool(m(nm)) for nm in P['names']]
 
 
+def matching_bounds(P, target):
+    """what any reading of "the task's name matches the target" has to respect, stated without the code's matcher: a task whose function is
+    called `target` (bare name), or whose qualified name ends in `target` (dotted name), matches; a task in whose qualified name the target does
+    not even occur as (the beginning of) a dotted component after the first does not"""
+    names = P['names']
+    if '.' in target:
+        return [nm == target or nm.endswith('.' + target) for nm in names], [target in nm for nm in names]
+    # (tasks with an unqualified name, like jug.utils.identity's 'identity', are left to the code: the unchanged matcher never matches them by bare name)
+    return [nm.endswith('.' + target) for nm in names], [('.' + target) in nm or ('.' not in nm and nm.startswith(target)) for nm in names]
+
+
+MODULE_TARGETS = ['jugverif', 'lib', 'jug', 'lib.mk', 'jugverif.lib.inc', 'mapreduce', 'jugverif.lib']
+
+
 def check(run):
     quick = run.tier == 'quick'
     run.rule = ('generated DAGs (every embedding kind) x every task-function name in them as target x prior store states (fully run, partially run, packed) x backends (file, file+pack, in-memory, redis protocol): '
@@ -47,6 +61,8 @@ def check(run):
                 must = [t for t in targets if t in ('_jug_map', 'idx', 'mk')]
                 rest = [t for t in targets if t not in must]
                 targets = must + rng.sample(rest, min(3, len(rest)))
+            # a target that names (a prefix of) a module component, or a qualified name
+            targets = targets + [MODULE_TARGETS[pi % len(MODULE_TARGETS)]] + ([] if quick else [MODULE_TARGETS[(pi + 3) % len(MODULE_TARGETS)]])
             for ti, target in enumerate(targets):
                 for variant in ('cli', 'shell'):
                     kind = ['file', 'dict', 'redis', 'filepack'][(ti + (variant == 'shell')) % 4]
@@ -61,6 +77,11 @@ def check(run):
                         present = {i for i in range(n) if rng.random() < 0.7}
                     G.put_state(P, be, present, {})
                     hit = matching(P, target)
+                    mlow, mup = matching_bounds(P, target)
+                    bad = [i for i in range(n) if (mlow[i] and not hit[i]) or (hit[i] and not mup[i])]
+                    if bad and variant == 'cli':
+                        run.fail('target-matching', 'target %r: %s' % (target, '; '.join('task %s is %s' % (P['names'][i], 'matched although the target is no component of its name' if hit[i] else 'not matched') for i in bad[:3])),
+                                 {'kind': 'matching', 'program': prog.text, 'target': target})
                     roots = [i for i in range(n) if hit[i]]
                     low = G.closure(P, roots, 'reads')
                     up = G.closure(P, roots, 'reported') | low
@@ -130,6 +151,20 @@ def check(run):
 
 def replay(path):
     d = json.load(open(path))
+    r = d['replay']
+    if r.get('kind') == 'matching':
+        scratch = core.scratch_dir()
+        try:
+            P = G.analyse_with_values(r['program'], scratch)
+            hit = matching(P, r['target'])
+            low, up = matching_bounds(P, r['target'])
+            bad = [P['names'][i] for i in range(P['n']) if (low[i] and not hit[i]) or (hit[i] and not up[i])]
+            print('program:\n' + r['program'])
+            print('target %r matches %s' % (r['target'], [P['names'][i] for i in range(P['n']) if hit[i]]))
+            print('property FAILS on this input: wrongly (un)matched %s' % bad if bad else 'property holds on this input')
+            return 1 if bad else 0
+        finally:
+            core.rm_rf(scratch)
     print(d['what'][:1000])
     print(json.dumps(d['replay'])[:2000])
     return 1
